@@ -109,6 +109,7 @@ struct Pools {
     vector<string> gen;         // generated local x domain
     vector<string> conv;        // valid-6531-local addresses with a non-bracket domain (reach the converter)
     vector<string> domains;     // bare domains for LOW_UTF8DOM
+    vector<std::pair<string, string>> pairs;   // addresses with related TLDs (one a proper prefix of the other, classes differ)
     vector<string> all;
 };
 static Pools G;
@@ -153,6 +154,7 @@ static void build_pools() {
         "a.onion", "example", "host", "mail.ru", "123.456", "1.2.3.4", "under_score.com", "-a.com", "a-.com", "ab--cd.com",
         "a..b.com", ".lead.com", "trail.com.", "trail.ru..", string(63, 'a') + ".com", string(64, 'a') + ".com",
         "[1.2.3.4]", "[IPv6:::1]", "[IPv6:2001:db8::1]", "[1.2.3]", "[IPv6:zz]", "[1.2.3.4", "[]", "[300.1.1.1]", " space.com",
+        "[1.2.3.4]x", "[1.2.3.4].com", "[IPv6:::1]:25", "[1.2.3.4] ", "[1.2.3.44", "[IPv6:2001:db8::1", "x[1.2.3.4]", "[1.2.3.4]]", "[[1.2.3.4]", "[IPv6:1.2.3.4]", "[ipv6:::1]",
         "a.b.c.d.e.f.g.iana.org", "xn--p1ai.com", "xn--a.com", "xn--80a1acny.xn--p1ai", "xn---abc.com", "xn--zz--zz.com",
         "\xd0\xbf\xd0\xbe\xd1\x87\xd1\x82\xd0\xb0.\xd1\x80\xd1\x84",            // почта.рф
         "\xd0\x9f\xd0\xbe\xd0\xa7\xd1\x82\xd0\x90.\xd0\xa0\xd0\xa4",            // ПоЧтА.РФ
@@ -173,6 +175,14 @@ static void build_pools() {
         if (n.compare(0, 4, "xn--") == 0 && (i % 6) == 0) doms.push_back("mail." + n);
     }
     for (size_t i = 0; i < tldd.size(); i++) if (has_hi(tldd[i]) || (i % 40) == 0) doms.push_back(tldd[i]);
+    for (int i = 0; i < nt && G.pairs.size() < 300; i++) for (int j = 0; j < nt; j++) {
+        if (i == j) continue;
+        string a = shim_tld_name(i), b = shim_tld_name(j);
+        if (a.size() < b.size() && b.compare(0, a.size(), a) == 0 && shim_tld_type(i) != shim_tld_type(j) && (i * 31 + j) % 4 == 0)
+            G.pairs.push_back({ "user@host." + a, "user@host." + b });
+    }
+    // the longest names of the table (length pre-checks, fixed label buffers)
+    { vector<string> byl; for (int i = 0; i < nt; i++) byl.push_back(shim_tld_name(i)); std::sort(byl.begin(), byl.end(), [](const string &x, const string &y) { return x.size() > y.size(); }); for (size_t i = 0; i < byl.size() && i < 8; i++) doms.push_back("mail." + byl[i]); }
     for (auto &d : doms_corp) doms.push_back(d);
     for (auto &l : locals_corp) locals.push_back(l);
 
@@ -205,6 +215,11 @@ static const string &pick(sim_rng &r, const vector<string> &v) { return v[sim_be
 
 static vector<string> draw_pool(sim_rng &r, const string &prop, int n) {
     vector<string> p;
+    if (!G.pairs.empty() && sim_below(&r, 4) == 0) {   // related TLDs: a stale "last hit" turns one into the other
+        int np = 1 + (int)sim_below(&r, 3);
+        for (int i = 0; i < np; i++) { auto &pr = G.pairs[sim_below(&r, G.pairs.size())]; p.push_back(pr.first); p.push_back(pr.second); }
+        if (sim_below(&r, 2)) n = (int)sim_below(&r, 3);
+    }
     for (int i = 0; i < n; i++) {
         unsigned c = (unsigned)sim_below(&r, 100);
         if (prop == "C19") {
@@ -445,7 +460,7 @@ struct RefKey {
 struct Exec {
     const Plan &plan;
     bool want_log;
-    vector<string> log;
+    vector<string> log, nlog;
     uint64_t h_local = SIM_FNV_INIT, h_neutral = SIM_FNV_INIT;
     vector<Viol> viols;
     vector<void *> store;
@@ -462,7 +477,7 @@ struct Exec {
     void rec(const string &local, const string &neutral) {
         h_local = sim_fnv1a(h_local, local.data(), local.size()); h_local = sim_fnv1a(h_local, "\n", 1);
         h_neutral = sim_fnv1a(h_neutral, neutral.data(), neutral.size()); h_neutral = sim_fnv1a(h_neutral, "\n", 1);
-        if (want_log) { log.push_back(local); }
+        if (want_log) { log.push_back(local); nlog.push_back(neutral); }
         ST.steps++;
     }
     void viol(const string &cls, const string &detail) {
@@ -847,6 +862,7 @@ struct Exec {
 
 // Runs one plan; returns true when no violation.  Sanitizer reports kill the process
 // (exit 77) and are classified by the driver from the B line in flight.
+static vector<string> g_last_nlog;
 static bool run_plan(const Plan &p, bool want_log, vector<Viol> &viols, uint64_t &hl, uint64_t &hn, vector<string> *logout, bool count_stats = true) {
     Exec *ex = new Exec(p, want_log);
     g_abort_armed = true;
@@ -860,6 +876,7 @@ static bool run_plan(const Plan &p, bool want_log, vector<Viol> &viols, uint64_t
     g_abort_armed = false;
     viols = ex->viols; hl = ex->h_local; hn = ex->h_neutral;
     if (logout) *logout = ex->log;
+    g_last_nlog = ex->nlog;
     if (count_stats) {
         ST.plans++;
         string pj = sj::dump(plan_to_json(p));
@@ -1002,6 +1019,7 @@ int main(int argc, char **argv) {
             printf("B %zu\n", i);
             bool alive = run_plan(ps[i], log, v, hl, hn, &lg);
             if (log) for (auto &l : lg) printf("L %zu %s\n", i, sj::dump(sj::Value::str(l)).c_str());
+            if (log) for (auto &l : g_last_nlog) printf("M %zu %s\n", i, sj::dump(sj::Value::str(l)).c_str());
             if (v.empty()) printf("R %zu ok %016llx %016llx\n", i, (unsigned long long)hl, (unsigned long long)hn);
             else {
                 bad++;
